@@ -114,13 +114,14 @@ SetMin(S) == CHOOSE m \in S : \A o \in S : m <= o
 \*  - start < 1: unjudged (statement silent);
 \*  - the empty text sought from start = LEN+1: the statement's reading
 \*    (MID(x, LEN+1, 0) = "") gives LEN+1, Excel's documentation gives #VALUE!
-\*    (start beyond the text): both allowed.
+\*    (start beyond the text): both allowed -- except for start = 1 (the
+\*    default), which is a position of every text: FIND("", "") = 1.
 \* FIND(f, x) is FIND(f, x, 1).
 FindAllowed(f, x, start) ==
   IF start < 1 THEN {Unjudged}
   ELSE LET P == {p \in Matches(f, x) : p >= start}
        IN  IF P = {} THEN {ValueErr}
-           ELSE IF f = <<>> /\ start = Len(x) + 1 THEN {N(start), ValueErr}
+           ELSE IF f = <<>> /\ start = Len(x) + 1 /\ start > 1 THEN {N(start), ValueErr}
            ELSE {N(SetMin(P))}
 
 \* SUBSTITUTE: left-to-right scan; inst = 0 replaces every occurrence,
